@@ -1127,7 +1127,7 @@ int64_t carquet_column_read_batch(
  *
  * @param[in] reader Column reader
  * @param[in] num_values Number of values to skip
- * @return Number of values actually skipped
+ * @return Number of values actually skipped, or negative on error
  *
  * @note Thread-safe: No
  */
